@@ -1524,8 +1524,10 @@ class DistPoisson(DistDiscrete):
     def probability(self, observation: int) -> float:
         """Returns the probability of the observation for the distribution."""
         if isinstance(observation, int) and observation >= 0:
-            return (math.exp(-self._rate) * (self._rate ** observation)
-                    / math.factorial(observation))
+            # evaluated on the log scale: rate ** observation and
+            # factorial(observation) overflow for larger observations
+            return math.exp(-self._rate + observation * math.log(self._rate)
+                            - math.lgamma(observation + 1.0))
         return 0.0;
 
     @property
